@@ -93,6 +93,12 @@ impl Zobrist {
         self.hash
     }
 
+    /// Verification hook: builds a hash value from raw bits (no public constructor is surjective).
+    #[cfg(jamesmharmon_arimaa_engine_step_verif)]
+    pub fn from_raw(hash: u64) -> Self {
+        Zobrist { hash }
+    }
+
     pub fn board_state_hash_with_push_pull_state(&self, push_pull_state: PushPullState) -> u64 {
         let push_pull_hash = match push_pull_state {
             PushPullState::MustCompletePush(square, piece) => push_piece_value(square, piece),
